@@ -58,7 +58,7 @@ class WriteBytes(Contract):
         return c.int("n")
 
     def ensures(self, c, old, result, file, data):
-        return [("appends", eq(c.out(file), old.out(file) + data)), ("returns-length", result == L(data))]
+        return [("appends", eq(c.appended(old, file), data)), ("returns-length", result == L(data))]
 
 
 @contract
@@ -80,7 +80,7 @@ class WriteByte(Contract):
         return c.int("n")
 
     def ensures(self, c, old, result, file, data):
-        return [("appends", eq(c.out(file), old.out(file) + data)), ("one-byte-written", L(c.out(file)) == L(old.out(file)) + 1)]
+        return [("appends", eq(c.appended(old, file), data)), ("one-byte-written", L(c.appended(old, file)) == 1)]
 
 
 # ---------------------------------------------------------------------------------------- fixed width
@@ -155,12 +155,11 @@ class WriteUint32(Contract):
         return [(file, "out")]
 
     def ensures(self, c, old, result, file, value):
-        o0, o1 = old.out(file), c.out(file)
-        n0 = L(o0)
+        app = c.appended(old, file)
         return [
-            ("appends-4", And(L(o1) == n0 + 4, eq(slice_(o1, 0, n0), o0))),
-            ("decodes", SP.uint32_le(o1, n0) == value),
-            ("exact", eq(o1, o0 + to_bytes_le(value, 4))),
+            ("appends-4", L(app) == 4),
+            ("decodes", SP.uint32_le(app, 0) == value),
+            ("exact", eq(app, to_bytes_le(value, 4))),
         ]
 
 
@@ -179,12 +178,11 @@ class WriteRealUint64(Contract):
         return [(file, "out")]
 
     def ensures(self, c, old, result, file, value):
-        o0, o1 = old.out(file), c.out(file)
-        n0 = L(o0)
+        app = c.appended(old, file)
         return [
-            ("appends-8", And(L(o1) == n0 + 8, eq(slice_(o1, 0, n0), o0))),
-            ("decodes", SP.uint64_le(o1, n0) == value),
-            ("exact", eq(o1, o0 + to_bytes_le(value, 8))),
+            ("appends-8", L(app) == 8),
+            ("decodes", SP.uint64_le(app, 0) == value),
+            ("exact", eq(app, to_bytes_le(value, 8))),
         ]
 
 
@@ -249,13 +247,12 @@ class WriteUint64(Contract):
         return [(file, "out")]
 
     def ensures(self, c, old, result, file, value):
-        o0, o1 = old.out(file), c.out(file)
-        n0 = L(o0)
+        app = c.appended(old, file)
         return [
-            ("appends", And(L(o1) > n0, eq(slice_(o1, 0, n0), o0))),
-            ("at-most-9-bytes", L(o1) - n0 <= 9),
-            ("length-announced", L(o1) - n0 == SP.number_len(o1, n0)),
-            ("decodes-to-value", SP.number_value(o1, n0) == value),
+            ("appends", L(app) >= 1),
+            ("at-most-9-bytes", L(app) <= 9),
+            ("length-announced", L(app) == SP.number_len(app, 0)),
+            ("decodes-to-value", SP.number_value(app, 0) == value),
         ]
 
 
@@ -368,20 +365,8 @@ class WriteBoolean(Contract):
         from pyvc.values import all_true_of
 
         bs = c.view(booleans)
-        n = L(bs)
-        o0, o1 = old.out(file), c.out(file)
-        n0 = L(o0)
-        alltrue = all_true_of(c, bs)
-        short = And(all_defined, alltrue)
-        q0 = n0 + ite(all_defined, 1, 0)
-        return [
-            ("appends", eq(slice_(o1, 0, n0), o0)),
-            ("shortcut", Implies(short, And(L(o1) == n0 + 1, nth(o1, n0) == 1))),
-            ("flag-zero", Implies(And(all_defined, Not(alltrue)), nth(o1, n0) == 0)),
-            ("length", Implies(Not(short), L(o1) == q0 + ceil8(n))),
-            ("bit-k", ForAll(lambda k: Implies(And(Not(short), k >= 0, k < n), SP.bit(o1, q0, k) == nth(bs, k)), over=bs, mod=8)),
-            ("padding-zero", ForAll(lambda k: Implies(And(Not(short), k >= n, k < 8 * ceil8(n)), Not(SP.bit(o1, q0, k))), over=bs, trigger=False, mod=8)),
-        ]
+        app = c.appended(old, file)
+        return SP.boolean_list_clauses(c, app, bs, all_defined)
 
     def loops(self):
         def inv(c, Lp):
@@ -472,25 +457,21 @@ class WriteCrcs(Contract):
 
     def ensures(self, c, old, result, file, crcs):
         xs = c.view(crcs)
-        o0, o1 = old.out(file), c.out(file)
-        n0 = L(o0)
+        app = c.appended(old, file)
         return [
-            ("length", L(o1) == n0 + 4 * L(xs)),
-            ("appends", eq(slice_(o1, 0, n0), o0)),
-            ("value-k", ForAll(lambda k: Implies(And(k >= 0, k < L(xs)), SP.uint32_le(o1, n0 + 4 * k) == nth(xs, k)), over=xs)),
+            ("length", L(app) == 4 * L(xs)),
+            ("value-k", ForAll(lambda k: Implies(And(k >= 0, k < L(xs)), SP.uint32_le(app, 4 * k) == nth(xs, k)), over=xs)),
         ]
 
     def loops(self):
         def inv(c, Lp):
             file = c.bound["file"]
             xs = c.view(c.bound["crcs"])
-            o0, o = c.old.out(file), c.out(file)
-            n0 = L(o0)
+            app = c.appended(c.old, file)
             i = Lp.i
             return [
-                ("length", L(o) == n0 + 4 * i),
-                ("appends", eq(slice_(o, 0, n0), o0)),
-                ("value-k", ForAll(lambda k: Implies(And(k >= 0, k < i), SP.uint32_le(o, n0 + 4 * k) == nth(xs, k)), over=xs)),
+                ("length", L(app) == 4 * i),
+                ("value-k", ForAll(lambda k: Implies(And(k >= 0, k < i), SP.uint32_le(app, 4 * k) == nth(xs, k)), over=xs)),
             ]
 
         return {"archiveinfo:write_crcs#loop0": LoopSpec("for-crc", inv, target="crc in crcs")}
@@ -519,12 +500,12 @@ class WriteUtf16(Contract):
         return [(file, "out")]
 
     def ensures(self, c, old, result, file, val):
-        return [("units-then-terminator", eq(c.out(file), old.out(file) + U16.encode(val) + b"\x00\x00"))]
+        return [("units-then-terminator", eq(c.appended(old, file), U16.encode(val) + b"\x00\x00"))]
 
     def loops(self):
         def inv(c, Lp):
             file, val = c.bound["file"], c.bound["val"]
-            return [("emitted-prefix", eq(c.out(file), c.old.out(file) + U16.encode(slice_(val, 0, Lp.i))))]
+            return [("emitted-prefix", eq(c.appended(c.old, file), U16.encode(slice_(val, 0, Lp.i))))]
 
         def step(c, Lp):
             val = c.bound["val"]
